@@ -174,6 +174,38 @@ Theorem C13_cli_oracle_holds_on_model : forall mac c k h sp dp pl rs (auth : boo
 Proof. exact cli_oracle_on_model. Qed.
 Print Assumptions C13_cli_oracle_holds_on_model.
 
+(* The server clause of the property oracle (C13_srv_ok, the boolean evaluated on
+   the implementation's observations) holds for the model on ALL inputs: any
+   listener configuration (own port / end-host port / dispatcher, fetcher or
+   not), any received datagram q (parsed in slayers' fixed extension order),
+   any ancillary data oob, any MAC function, Path.Reverse, key fetch and NTP
+   part, any set of harness sockets and sending socket.  The observation is
+   what the harness sockets see of the step ([srv_obs]): nothing for a drop,
+   the serialised and re-parsed reply at the sending socket, a forwarded packet
+   at the socket bound to the addressed (host, port) if there is one; the MACs
+   recomputed under the host-host key k for the first authenticator option, as
+   the harness does it, and the request's path reversed by [reverse].
+   Hypotheses (each one is a hypothesis of a clause-wise theorem above):
+     - a CMAC tag has 16 bytes: first hypothesis of C13_reply_auth_roundtrip;
+       the second one (the reversed path has a registered type) is not needed:
+       the oracle does not ask whether the reply's MAC is computable;
+     - wf_layers q: as in C13_cli_oracle_holds_on_model; it turns the oracle's
+       "an end-to-end extension was decoded" into the [carries] of the
+       clause-wise theorems (extension directly in front of the L4 layer);
+     - on a listener with a fetcher the host-host key is available:
+       [fetch_key (keyreq_of q) = Some k] of C13_bad_mac_never_served /
+       C13_bad_mac_dropped / C13_covered_mutation_dropped (without a key the
+       listener serves the request unauthenticated). *)
+Theorem C13_srv_oracle_holds_on_model : forall mac reverse fetch_key ntp_handle socks sender k nok c q oob,
+  (forall k m, zlen (mac k m) = 16) ->
+  wf_layers q ->
+  (s_fetcher c = true -> fetch_key (keyreq_of q) = Some k) ->
+  C13_srv_ok (s_local_port c) (s_conn_port c) (s_fetcher c) socks sender q
+    (recomputed_mac mac k q) (reverse (h_path_type (rx_hdr q), h_path (rx_hdr q)))
+    (srv_obs mac socks sender k nok (server_step mac reverse fetch_key ntp_handle c q oob)) = true.
+Proof. exact srv_oracle_on_model. Qed.
+Print Assumptions C13_srv_oracle_holds_on_model.
+
 (* ---- the hypotheses are satisfiable: a concrete authenticated exchange ---- *)
 (* a 16-byte checksum of the encoded MAC input: enough for the example *)
 Definition ex_mac (k : bytes) (m : macin) : bytes := (fold_left Z.add (ideal_mac k m) 0 mod 256) :: repeat 0 15.
@@ -205,4 +237,46 @@ Proof.
   split; [vm_compute; reflexivity|].
   split; [vm_compute; reflexivity|].
   split; [vm_compute; exact I|vm_compute; reflexivity].
+Qed.
+
+(* ---- the hypotheses of C13_srv_oracle_holds_on_model are satisfiable, and the
+        oracle it speaks of is not trivially true ---- *)
+Definition ex_bad_req : rx :=
+  mkRx true (rx_layers ex_req) (rx_hdr ex_req) (rx_opts ex_req)
+       (Udp 40000 10123 56 (34 :: repeat 35 47)) (rx_buflen ex_req) true.
+Definition ex_fwd_req : rx :=
+  mkRx true [LT_SCION; LT_UDP] (set_next ex_hdr L4_UDP) [] (Udp 40000 31000 56 (repeat 35 48)) 200 true.
+Definition ex_socks : list (bytes * Z) := [([10;0;0;9], 31000); ([10;0;0;1], 31000)].
+Definition ex_obs (c : scfg) (q : rx) : list sobs :=
+  srv_obs ex_mac ex_socks 7 (repeat 0 16) false (server_step ex_mac ex_rev ex_key ex_ntp c q []).
+Definition ex_srv_ok (c : scfg) (q : rx) (obs : list sobs) : bool :=
+  C13_srv_ok (s_local_port c) (s_conn_port c) (s_fetcher c) ex_socks 7 q
+    (recomputed_mac ex_mac (repeat 0 16) q) (ex_rev (h_path_type (rx_hdr q), h_path (rx_hdr q))) obs.
+
+Example C13_srv_oracle_nonvacuous :
+  (forall k m, zlen (ex_mac k m) = 16) /\ wf_layers ex_req /\ wf_layers ex_bad_req /\ wf_layers ex_fwd_req /\
+  (forall r, ex_key r = Some (repeat 0 16)) /\
+  (* the verified request is answered by one datagram at the sending socket, the
+     request with a changed payload byte by none, the packet for port 31000 is
+     forwarded to the second harness socket *)
+  map so_sock (ex_obs ex_scfg ex_req) = [7] /\ ex_obs ex_scfg ex_bad_req = [] /\
+  map so_sock (ex_obs (mkScfg 10123 endhost_port 10 true) ex_fwd_req) = [1] /\
+  (* the oracle accepts these (instances of the theorem) ... *)
+  ex_srv_ok ex_scfg ex_req (ex_obs ex_scfg ex_req) = true /\
+  (* ... and rejects: the reply as an answer to the request that does not verify, *)
+  ex_srv_ok ex_scfg ex_bad_req (ex_obs ex_scfg ex_req) = false /\
+  (* an unauthenticated reply to the verified request, *)
+  ex_srv_ok ex_scfg ex_req (ex_obs (mkScfg 10123 10123 10 false) ex_req) = false /\
+  (* the reply seen at another socket than the previous hop, *)
+  ex_srv_ok ex_scfg ex_req (map (fun o => mkSobs 1 (so_rx o) (so_mac o)) (ex_obs ex_scfg ex_req)) = false /\
+  (* a due forward that does not happen, and a forward from a listener that is not the end-host port's *)
+  ex_srv_ok (mkScfg 10123 endhost_port 10 true) ex_fwd_req [] = false /\
+  ex_srv_ok ex_scfg ex_fwd_req (ex_obs (mkScfg 10123 endhost_port 10 true) ex_fwd_req) = false.
+Proof.
+  split; [intros k m; reflexivity|].
+  split; [intros _; vm_compute; split; [discriminate|reflexivity]|].
+  split; [intros _; vm_compute; split; [discriminate|reflexivity]|].
+  split; [intro H; vm_compute in H; discriminate|].
+  split; [intro r; reflexivity|].
+  repeat split; vm_compute; reflexivity.
 Qed.
